@@ -699,3 +699,41 @@ mod tests {
         }
     }
 }
+
+#[cfg(futures_intrusive_verif)]
+impl<T> ListNode<T> {
+    /// Verification hook: addresses of the previous and next node (0 = none).
+    pub fn verif_links(&self) -> (usize, usize) {
+        (
+            self.prev.map_or(0, |p| p.as_ptr() as usize),
+            self.next.map_or(0, |p| p.as_ptr() as usize),
+        )
+    }
+}
+
+#[cfg(futures_intrusive_verif)]
+impl<T> LinkedList<T> {
+    /// Verification hook: addresses of head and tail (0 = none).
+    pub fn verif_ends(&self) -> (usize, usize) {
+        (
+            self.head.map_or(0, |p| p.as_ptr() as usize),
+            self.tail.map_or(0, |p| p.as_ptr() as usize),
+        )
+    }
+
+    /// Verification hook: calls `f` for every node from head to tail,
+    /// visiting at most `limit` nodes.
+    pub fn verif_for_each<F: FnMut(&ListNode<T>)>(&self, limit: usize, mut f: F) {
+        let mut cur = self.head;
+        let mut n = 0;
+        while let Some(node) = cur {
+            if n >= limit {
+                break;
+            }
+            n += 1;
+            let node_ref = unsafe { &*node.as_ptr() };
+            f(node_ref);
+            cur = node_ref.next;
+        }
+    }
+}
